@@ -3,12 +3,13 @@ import itertools
 from ..driver import Part
 from .. import common as C
 
-COQ_FILES = ["Agent.v", "AgentProofs.v", "ClusterNet.v", "ClusterNetProofs.v", "ClusterNetExec.v", "PropsClusterNet.v", "StaggerExec.v"]
+COQ_FILES = ["Agent.v", "AgentProofs.v", "ClusterNet.v", "ClusterNetProofs.v", "ClusterNetExec.v", "PropsClusterNet.v", "JoinSpread.v", "JoinSpreadProofs.v", "StaggerExec.v"]
 THEOREMS = ["C19_activate_refuses_known_or_unhostable", "C19_activate_spawns_one_on_selected",
             "C19_views_agree_after_delivery", "C19_joiner_learns_all",
             "C19_deactivate_removes_everywhere_and_stops", "C19_leave_purges_hosted",
             "C19_spawn_registers_everywhere", "C19_quiescent_history_refines_spec", "C19_by_kind_lists_the_activation",
-            "C19_oracle_holds_of_model", "C19_premises_needed"]
+            "C19_oracle_holds_of_model", "C19_premises_needed",
+            "C19_join_that_spreads_everyone_learns", "C19_join_that_spreads_views"]
 RULE = ("histories of activate / deactivate / cluster-spawn / join / leave run on 1..4 real cluster.Cluster instances in "
         "one process, joined by an in-memory actor.Remoter (every cross-node message passes a protobuf encode/decode and "
         "the destination engine's SendLocal), do-nothing providers, membership injected by the harness as *cluster.Members "
@@ -336,7 +337,7 @@ class Stagger(Part):
     name = "stagger"
     family = "cluster19"
     exec_module = "StaggerExec"
-    branch_names = {3: "three_members", 4: "four_members"}
+    branch_names = {1: "activation_by_a_member_not_yet_told", 2: "activation_by_a_member_already_told", 3: "several_agents_told_at_once"}
 
     def generate(self, rng, tier):
         cases = []
@@ -364,19 +365,28 @@ class Stagger(Part):
         return cases
 
     def to_coq(self, inp, obs):
-        expect, views = [], []
-        if isinstance(obs, list) and len(obs) == len(inp["ops"]) and obs and not any(o.get("err") for o in obs):
-            nkeys = len(obs[-1]["nodes"][0]["byid"]) if obs[-1]["nodes"] else 0
-            expect = [0] * nkeys
-            ki = {}
-            for o, ob in zip(inp["ops"], obs):
-                if o[0] == "activate":
-                    k = (o[2], o[3])
-                    ki.setdefault(k, len(ki))
-                    if ob.get("res"):
-                        expect[ki[k]] = ob["res"]["host"] + 1
+        ops = inp["ops"]
+        m = sum(1 for o in ops if o[0] == "join")           # old members 0..m-1; node m joins
+        ki, mops, mres = {}, [], []
+        good = isinstance(obs, list) and len(obs) == len(ops) and obs and not any(o.get("err") for o in obs)
+        for idx, o in enumerate(ops):
+            if o[0] == "join_to":
+                mops.append("Tell %s %s" % (C.clist([C.cnat(r) for r in o[2] if r < m]), "true" if m in o[2] else "false"))
+                mres.append(0)
+            elif o[0] == "activate":
+                k = ki.setdefault((o[2], o[3]), len(ki))
+                mops.append("Act %s %s %s" % (C.cnat(o[1]), C.cnat(k), C.cnat(o[4])))
+                r = obs[idx].get("res") if good else None
+                mres.append(r["host"] + 1 if r else 0)
+        nk = len(ki)
+        expect, views = [0] * nk, []
+        if good:
+            for o, r in zip([x for x in ops if x[0] in ("join_to", "activate")], mres):
+                if o[0] == "activate" and r:
+                    expect[ki[(o[2], o[3])]] = r
             views = [[h + 1 for h in n["byid"]] for n in obs[-1]["nodes"]]
-        return "{| c_expect := %s; c_views := %s |}" % (
+        return "{| c_m := %s; c_nk := %s; c_ops := %s; c_res := %s; c_expect := %s; c_views := %s |}" % (
+            C.cnat(m), C.cnat(nk), C.clist(mops), C.clist([C.cnat(x) for x in mres]),
             C.clist([C.cnat(x) for x in expect]), C.clist([C.clist([C.cnat(x) for x in v]) for v in views]))
 
     def shrink(self, inp):
